@@ -37,6 +37,12 @@ func c13ReproScenario() (*ccScenario, *c13Plan) {
 
 func c13ReproRun(t *testing.T, key, after string, nth int) {
 	sc, plan := c13ReproScenario()
+	c13ReproRunPlan(t, sc, plan, key, after, nth)
+}
+
+func c13ReproRunPlan(t *testing.T, sc *ccScenario, plan *c13Plan, key,
+	after string, nth int) {
+
 	st := vstats.New("repro")
 
 	base := c13Run(t, sc, plan, nil)
@@ -46,9 +52,9 @@ func c13ReproRun(t *testing.T, key, after string, nth int) {
 	t.Logf("uninterrupted: state=%v msgs=%v finals=%v effects=%v",
 		base.state, base.msgs, base.finals, base.effLog)
 	if base.state != StateFullyResolved || len(base.msgs) != 1 ||
-		len(base.finals) != 1 {
+		len(base.finals) != 1 || len(base.inputErrs) != 0 {
 
-		t.Fatalf("unexpected uninterrupted outcome")
+		t.Fatalf("unexpected uninterrupted outcome %v", base.inputErrs)
 	}
 
 	k := 0
@@ -73,6 +79,9 @@ func c13ReproRun(t *testing.T, key, after string, nth int) {
 	t.Logf("stop after effect %d (%s), restarted: state=%v msgs=%v "+
 		"finals=%v unresolved=%v effects=%v", k, base.effLog[k-1],
 		run.state, run.msgs, run.finals, run.unresolved, run.effLog)
+	for _, r := range run.inputs {
+		t.Logf("life %d sweeper input: %s", r.life, r.core)
+	}
 
 	run.crashStates, run.crashLast = nil, nil
 	err := c13Compare(base, run, sc, plan, st)
@@ -83,7 +92,7 @@ func c13ReproRun(t *testing.T, key, after string, nth int) {
 	case ccKnown(key):
 		t.Logf("KNOWN-FINDING %s reproduced: %s", key, what)
 	default:
-		t.Fatalf("%s: %s", key, what)
+		t.Errorf("%s: %s", key, what)
 	}
 }
 
@@ -162,4 +171,36 @@ func TestVerifC13ReproContestOwnSweepPanic(t *testing.T) {
 	} else {
 		t.Logf("no panic (err=%v)", err)
 	}
+}
+
+// A taproot channel, the peer's commitment confirms with a received HTLC
+// whose preimage is in the witness beacon: the incoming contest resolver is
+// swapped for a success resolver that carries the preimage. A stop right
+// after that swap: the restarted success resolver hands the sweeper an input
+// without the preimage.
+func TestVerifC13ReproTaprootPreimageLost(t *testing.T) {
+	// Control: the same history on an anchors channel.
+	sc, plan := c13ReproScenario()
+	sc.ChanKind = 2
+	sc.HTLCs[1].Know = 1
+	plan.kind = c13KindAnchors
+	c13ReproRunPlan(t, sc, plan, "control",
+		"SwapContract(*contractcourt.htlcIncomingContestResolver", 1)
+
+	sc, plan = c13ReproScenario()
+	sc.ChanKind = 2
+	sc.HTLCs[1].Know = 1
+	plan.kind, plan.tap = c13KindTaproot, 1
+	c13ReproRunPlan(t, sc, plan, c13KeyTaprootPreimageLost,
+		"SwapContract(*contractcourt.htlcIncomingContestResolver", 1)
+
+	// The same on our own commitment (second-level success transaction),
+	// final taproot scripts.
+	sc, plan = c13ReproScenario()
+	sc.ChanKind = 2
+	sc.HTLCs[1].Know = 1
+	plan.conf = ccL
+	plan.kind, plan.tap = c13KindTaprootFinal, 2
+	c13ReproRunPlan(t, sc, plan, c13KeyTaprootPreimageLost,
+		"SwapContract(*contractcourt.htlcIncomingContestResolver", 1)
 }
